@@ -28,7 +28,7 @@ RULE = ("Hypothesis: property names (X- names, random RFC tokens, RFC names matc
 ASSUMPTIONS = ["checks run without -O (refusal by AssertionError counts as refusal)",
                "property names BEGIN/END and the semantics-bearing parameter names VALUE/TZID/ENCODING are outside the generated domain",
                "'\"' -> \"'\" in parameter values and [v] == v are documented normalisations"]
-REQUIRED_CLASSES = ["has-linebreak", "has-colon-or-semicolon", "has-begin-end-text", "kind:text", "kind:uri", "kind:category",
+REQUIRED_CLASSES = ["config:python-O+linebreak", "has-linebreak", "has-colon-or-semicolon", "has-begin-end-text", "kind:text", "kind:uri", "kind:category",
                     "outcome:intact", "outcome:refused"]
 
 CTRL = re.compile(r"[\x00-\x08\x0a-\x1f\x7f]")
@@ -143,7 +143,20 @@ RESERVED_PROP = {"BEGIN", "END"}
 RESERVED_PARAM = {"VALUE", "TZID", "ENCODING"}
 
 
+def _judge_optimised(case):
+    """configuration: the same case in an interpreter started with -O (assert statements are compiled away)"""
+    import json, os, subprocess, sys
+    from vlib.runner import VERIF, REPO
+    p = subprocess.run([sys.executable, "-O", os.path.join(VERIF, "tools", "c05_child.py")], input=json.dumps(case).encode(),
+                       stdout=subprocess.PIPE, stderr=subprocess.PIPE, env=dict(os.environ, VERIF_REPO=REPO, PYTHONHASHSEED="0"), timeout=120)
+    if p.returncode != 0:
+        raise RuntimeError(f"python -O child failed: {p.stderr.decode()[-500:]}")
+    return [Failure(c, s_ + "/python-O", d) for c, s_, d in json.loads(p.stdout)]
+
+
 def judge(case):
+    if case.get("interp") == "-O":
+        return _judge_optimised(case)
     sut.reset()
     name, pm, kind, v = case["name"], case["params"], case["kind"], case["value"]
     fails = []
@@ -318,8 +331,12 @@ def info(case):
     ss = strings_of(case)
     joined = "\x00".join(ss)
     classes = ["kind:" + case["kind"], "path:" + case["path"]]
+    if case.get("interp"):
+        classes.append("config:python" + case["interp"])
     if "\n" in joined or "\r" in joined:
         classes.append("has-linebreak")
+        if case.get("interp"):
+            classes.append("config:python-O+linebreak")
     if re.search(r"[:;]", joined):
         classes.append("has-colon-or-semicolon")
     if "BEGIN:" in joined or "END:" in joined:
@@ -456,6 +473,8 @@ def streams(tier):
     return [
         Stream("injection-sweep", "enum", 4 * 2 * _T, 8, _sweep, True, True),
         Stream("triples", "hyp", n, 16, cases),
+        # configuration: python -O.  One child interpreter per case, so the stream is small.
+        Stream("triples-under-python-O", "hyp", 12 if tier == "quick" else 200, 16, lambda: cases().map(lambda c: dict(c, interp="-O")), timeout_s=120),
     ]
 
 
